@@ -15,7 +15,7 @@ func init() {
 			{ID: "R-C14-1", Doc: "two pipes of one Cmd are not drained one after the other", Min: 1, Run: ruleC14_1},
 			{ID: "R-C14-2", Doc: "completion: Wait after drains; status and streams wired to the right keys", Min: 5, Run: ruleC14_2},
 			{ID: "R-C14-4", Doc: "empty command refused before indexing; Start error returned", Min: 2, Run: ruleC14_4},
-			a1Rule(2, "in_toto.RunCommand", "in_toto.waitErrToExitCode"),
+			a1Rule(1, "in_toto.RunCommand", "in_toto.waitErrToExitCode"),
 		}})
 }
 
@@ -294,6 +294,43 @@ func ruleC14_4(c *Ctx) {
 				c.check(dom, R, fn, "cmdArgs[i] after the emptiness check", ia.Pos(), "dominated by the non-empty edge", "cmdArgs is indexed where it may be empty")
 			}
 		}
+		if u.start == nil && u.runOut != nil {
+			// Run/Output: its error may be turned into an exit status only if it is nil or an *exec.ExitError
+			e := errResult(u.runOut)
+			okR := e != nil
+			if e != nil {
+				for _, conv := range callsIn(u.f, "in_toto.waitErrToExitCode") {
+					if !derives(conv.Common().Args[0], func(v ssa.Value) bool { return v == e }, false) {
+						continue
+					}
+					S := nilFacts(e, true)
+					for _, b := range u.f.Blocks {
+						for _, in := range b.Instrs {
+							switch x := in.(type) {
+							case *ssa.TypeAssert:
+								if x.CommaOk && resolve(x.X, x) == e && typeStr(x.AssertedType) == "*os/exec.ExitError" {
+									if okv := extractOf(x, 1); okv != nil {
+										S = append(S, boolFacts(okv, true)...)
+									}
+								}
+							case *ssa.Call:
+								if calleeName(x) == "errors.As" && derives(x.Call.Args[0], func(v ssa.Value) bool { return v == e }, false) && strings.Contains(typeStr(unwrapIface(x.Call.Args[1]).Type()), "os/exec.ExitError") {
+									S = append(S, boolFacts(x, true)...)
+								}
+							}
+						}
+					}
+					guarded := c.someFactAt(S, conv.Block())
+					// every other non-nil error must be returned
+					if !guarded {
+						okR = false
+					}
+				}
+				returned := flowsTo(e, func(u2 ssa.Instruction, via ssa.Value) bool { _, ok := u2.(*ssa.Return); return ok }, nil)
+				okR = okR && returned
+			}
+			c.check(okR, R, fn, "an error of Run() becomes an exit status only if it is an *exec.ExitError; everything else is returned", u.runOut.Pos(), "guarded conversion", "a command that cannot be started (fork/exec failure, missing working directory) is reported as exit status instead of as an error")
+		}
 		if u.start != nil {
 			okS := false
 			if e := errResult(u.start); e != nil {
@@ -364,4 +401,11 @@ func ruleC14_5(c *Ctx) {
 		}
 	}
 	c.ok(R, "in_toto", "lock regions scanned for blocking reads", 0, fmt.Sprintf("%d lock acquisitions in package in_toto", nLocks))
+}
+
+func unwrapIface(v ssa.Value) ssa.Value {
+	if mi, ok := v.(*ssa.MakeInterface); ok {
+		return mi.X
+	}
+	return v
 }
